@@ -18,4 +18,12 @@ var specs = map[string][]string{
 		"isobmff:Brand.String", "isobmff:boxType.String", "isobmff:hdlrType.String",
 		"jpeg:markerType.String",
 	},
+	// C16: tables and loop-free helpers of the text codecs (the loops are hand-written models tied by exhaustive correspondence)
+	"codec": {
+		"meta:$mapStringMeteringMode", "meta:$mapStringExposureMode", "meta:$mapStringExposureProgram",
+		"meta:MeteringMode.String", "meta:ExposureMode.String", "meta:ExposureProgram.String",
+		"meta:NewMeteringMode", "meta:NewExposureMode", "meta:NewExposureProgram", "meta:NewExposureBias",
+		"?meta:ExposureBias.MarshalText",
+		"imagetype:ImageType.String", "imagetype:FromString",
+	},
 }
